@@ -41,11 +41,12 @@ pub const MODES: [&str; 3] = ["with-loader-ts-5.0", "with-loader-ts-4.0", "stand
 
 pub fn gen_layout(ch: &mut Choices) -> Layout {
     let root = ch.pick(&["proj", "proj/app", "."]).to_string();
-    let schema_dir = ch.pick(&["schema", ".", "src/graphql/schema", "../shared"]).to_string();
-    let ops_dir = ch.pick(&["src/ops", ".", "ops", "src/deep/er/ops"]).to_string();
+    // "pkg/<x>/src" entries: trees that diverge and then repeat a directory name at the same depth
+    let schema_dir = ch.pick(&["schema", ".", "src/graphql/schema", "../shared", "pkg/api/src"]).to_string();
+    let ops_dir = ch.pick(&["src/ops", ".", "ops", "src/deep/er/ops", "pkg/client/src"]).to_string();
     let ext = ch.pick(&["d.ts", "ts", "d.mts", "mts", "d.cts"]).to_string();
-    let schema_output = format!("{}/schema.{ext}", ch.pick(&["generated", ".", "src/generated/types", "../out", "src/ops"]));
-    let resolvers_output = if ch.chance(1, 2) { Some(format!("{}/resolvers.d.ts", ch.pick(&["generated", ".", "src/server", "../out/sub"]))) } else { None };
+    let schema_output = format!("{}/schema.{ext}", ch.pick(&["generated", ".", "src/generated/types", "../out", "src/ops", "pkg/web/src", "pkg/web/src/gen"]));
+    let resolvers_output = if ch.chance(1, 2) { Some(format!("{}/resolvers.d.ts", ch.pick(&["generated", ".", "src/server", "../out/sub", "pkg/server/src"]))) } else { None };
     let server_graphql_output = if ch.chance(1, 3) { Some(format!("{}/schema.js", ch.pick(&["generated", "src/server"]))) } else { None };
     let mode = *ch.pick(&MODES);
     // a project root of "." cannot reach "../shared" or "../out" inside the sandbox dir:
